@@ -21,6 +21,8 @@ func init() {
 }
 
 func c20(c *Ctx) {
+	c.forwardedExtends("forwarded")
+	c.NoDiscardedErrors("errors/none-dropped", []string{"http"}, discardHTTP, 10)
 	p := c.P
 	sh := "http.(*Server).serveHTTP"
 
@@ -187,11 +189,11 @@ func c20(c *Ctx) {
 		{"handlePostImport", []string{"litefs.(*Store).CreateDBIfNotExists", "litefs.(*DB).Import"}, map[string]*Guard{
 			"name-required": GP("(\"\" == "+q("name")+")", false), "lease-context": G(`\(nil == context\.Context\.Err\(.*\)\)|\(context\.Context\.Err\(.*\) == nil\)`, true)}},
 		{"handlePostHalt", []string{"litefs.(*Store).CreateDBIfNotExists", "litefs.(*DB).AcquireHaltLock"}, map[string]*Guard{
-			"name-required": GP("(\"\" == "+q("name")+")", false), "id-parsed": nilOf("strconv.ParseInt(" + q("id") + ", 10, 64)#1"), "not-self": notSelf}},
+			"name-required": GP("(\"\" == "+q("name")+")", false), "id-parsed": nilOf("strconv.ParseInt(" + q("id") + ", 10, 64)#1"), "not-self": notSelf, "primary": GP("litefs.(*Store).IsPrimary(p0.store)", true)}},
 		{"handleDeleteHalt", []string{"litefs.(*DB).ReleaseHaltLock"}, map[string]*Guard{
 			"id-parsed": nilOf("strconv.ParseInt(" + q("id") + ", 10, 64)#1"), "not-self": notSelf, "db-exists": GP("(litefs.(*Store).DB(@@) == nil)", false)}},
 		{"handlePostTx", []string{"litefs.(*DB).WriteLTXFileAt", "litefs.(*DB).ApplyLTXNoLock"}, map[string]*Guard{
-			"id-parsed": nilOf("strconv.ParseInt(" + q("lockID") + ", 10, 64)#1"), "not-self": notSelf, "db-exists": GP("(litefs.(*Store).DB(@@) == nil)", false), "lock-held": G(pat("(litefs.(*DB).PinHaltLock(@@) == nil)")+"|"+pat("(nil == litefs.(*DB).PinHaltLock(@@))"), false)}},
+			"id-parsed": nilOf("strconv.ParseInt(" + q("lockID") + ", 10, 64)#1"), "not-self": notSelf, "db-exists": GP("(litefs.(*Store).DB(@@) == nil)", false), "primary": GP("litefs.(*Store).IsPrimary(p0.store)", true), "lock-held": G(pat("(litefs.(*DB).PinHaltLock(@@) == nil)")+"|"+pat("(nil == litefs.(*DB).PinHaltLock(@@))"), false)}},
 		{"handlePostHandoff", []string{"litefs.(*Store).Handoff"}, map[string]*Guard{
 			"node-id-parsed": nilOf("litefs.ParseNodeID(" + q("nodeID") + ")#1")}},
 		{"handlePostPromote", []string{"http.(*Client).Handoff"}, map[string]*Guard{
@@ -212,7 +214,7 @@ func c20(c *Ctx) {
 		}
 	}
 
-	c.verifyBeforeDestroy("validate-first/handlePostTx/body")
+	c.pageSizeBeforeCreate("validate-first/handlePostTx/body")
 
 	// ---- no-fatal ----
 	{
